@@ -19,6 +19,7 @@ from pathlib import Path
 from .. import core
 
 ID = 'C12'
+FOUNDATIONS = ['harness.foundation.cscalar']   # ties of the C++ helper functions the model rests on (generated from their text)
 LEVEL = 'other'
 RULE = ('corpus (perimeter first-use race, raising mix, reference-count race probes); then per seed: thread-stress '
         'cases = mixes of 3-8 calls drawn from all GIL-releasing kernels reachable from the public API, '
